@@ -187,13 +187,15 @@ def check_templates(ctx, f):
 # ---- the expression language on both sides of the writer's parser ------------------------------------------------------------
 # what a name / the operator grammar means to bioscrape's own parser (C02: sympy reading, TABLE of translated nodes)
 BIOSCRAPE_LANG = {'exp': 'exp', 'log': 'ln', 'abs': 'abs', 'min': 'min', 'max': 'max', 'Heaviside': 'step',
-                  'operators': 'unary minus binds weaker than ^, ^ associates to the right'}
+                  'operators': 'unary minus binds weaker than ^, ^ associates to the right',
+                  'model-names': 'the species or parameter of that name'}
+BUILTIN = 'the built-in constant or symbol of that name where one exists (pi, time, avogadro, true, inf ... matched case-insensitively)'
 UNDEF = 'a call of an undefined function'
 # what the same text means to the libsbml parsers (libsbml documentation of SBML_parseL3Formula / L3ParserSettings / SBML_parseFormula)
 L3_LANG = {'exp': 'exp', 'log': 'log10', 'abs': 'abs', 'min': 'min', 'max': 'max', 'Heaviside': UNDEF,
-           'operators': 'unary minus binds weaker than ^, ^ associates to the right'}
+           'operators': 'unary minus binds weaker than ^, ^ associates to the right', 'model-names': BUILTIN}
 LEGACY_LANG = {'exp': 'exp', 'log': 'ln', 'abs': 'abs', 'min': UNDEF, 'max': UNDEF, 'Heaviside': UNDEF,
-               'operators': 'unary minus binds tighter than ^, ^ associates to the left'}
+               'operators': 'unary minus binds tighter than ^, ^ associates to the left', 'model-names': BUILTIN}
 
 
 def parser_at(ctx, fname):
@@ -225,6 +227,13 @@ def parser_at(ctx, fname):
                 lang['log'] = 'rejected'
             elif modes not in ([], ['L3P_PARSE_LOG_AS_LOG10']):
                 raise AnalysisError('%s: parser settings %s not understood (%s)' % (fname, sv, modes))
+            # the model handed to the settings before this call (in this function): its identifiers take precedence over built-ins
+            model_arg = f.args.args[0].arg
+            given = [n for n in ast.walk(f) if isinstance(n, ast.Call) and isinstance(n.func, ast.Attribute) and n.func.attr == 'setModel'
+                     and src(n.func.value) == sv and n.args and src(n.args[0]) == model_arg and n.lineno <= c.lineno
+                     and not util.guards_of(n, f)]
+            if given:
+                lang['model-names'] = BIOSCRAPE_LANG['model-names']
             sites.append((lang, 'libsbml.parseL3FormulaWithSettings (log read as %s)' % lang['log'], c))
     if len(sites) != 1:
         raise AnalysisError('%s: expected exactly one formula-parsing call, found %d' % (fname, len(sites)))
@@ -253,6 +262,8 @@ def check_formula_language(ctx, rule, fname, site, mode):
         else:
             back = readback(theirs)
             ok = back == mine or (theirs == UNDEF)      # an undefined function is written and read back by name
+            if name == 'model-names' and theirs == BUILTIN:
+                ok = False
             detail = '' if ok else "%s reads %s as %s, which comes back as: %s; bioscrape's own reading is %s" % (
                 desc, "'%s(...)'" % name if name != 'operators' else 'the operator grammar', theirs, back, mine)
         ctx.ob(rule, '%s/%s' % (site, name), ok, where,
@@ -398,7 +409,7 @@ def check(ctx):
         ctx.prog.mod(m_)
     check_parameter_ids(ctx, 'R14.1-identifiers')
     check_formula_language(ctx, 'R14.6-formula-language', 'add_reaction', 'kinetic-law', 'sbml')
-    ctx.floor('R14.6-formula-language', 7)
+    ctx.floor('R14.6-formula-language', 8)
     # "the deterministic rate in a deterministic export and the combinatorial stochastic rate in a stochastic export": the templates
     # above are selected by add_reaction's `stochastic` argument, which must be the export's flag for every reaction, together with
     # the reaction's own 8 fields (C12 R12.3) - re-emitted here
